@@ -14,6 +14,8 @@ require (
 	github.com/mattn/go-runewidth v0.0.7 // indirect
 	github.com/olekukonko/tablewriter v0.0.4 // indirect
 	github.com/sabhiram/go-gitignore v0.0.0-20180611051255-d3107576ba94 // indirect
+	github.com/spf13/cobra v0.0.5 // indirect
+	github.com/spf13/pflag v1.0.3 // indirect
 	github.com/yourbasic/radix v0.0.0-20180308122924-cbe1cc82e907 // indirect
 	golang.org/x/exp v0.0.0-20220722155223-a9213eeb770e // indirect
 	gonum.org/v1/gonum v0.6.2 // indirect
